@@ -18,6 +18,24 @@ CLAIMS = {
               "harness and T1 extractor. Theorems range over skeleton families (no control flow inside expressions)."),
         technique="Lean 4 proof by mutual structural induction over an executable model + differential correspondence check",
         ref="DESIGN.md §3 C01"),
+    "C12": dict(
+        text=("Kernel-checked theorems about the coordinate arithmetic every violation goes through, for every text over any alphabet with a "
+              "newline symbol (bytes or code points; with or without final newline; any line endings) and every offset: a node that starts on "
+              "a character is published with 1 <= line <= number of lines and a column that indexes exactly that character in that line "
+              "(reported_valid, point_char, point_row_lt), offsets and positions determine each other (offset_of_point); and about DRY's "
+              "original-line tracking for every normaliser/filter and window size: tracked numbers are valid, strictly increasing and survive "
+              "the filter (tokenize_valid, tokenize_increasing), every window runs from the original number of its first kept line to that of its "
+              "last and carries exactly those lines (windows_spec, dry_start_is_first_kept_line). Tied to /repo by linting generated py/ts/rs "
+              "files of planted constructs with 16 linter commands: every violation's position is checked through the Lean model on the file's "
+              "bytes, quoted names/literals must occur on the reported line, every planted construct must be reported at exactly its anchor "
+              "line (def/function/fn header under decorators and multi-line signatures, class/struct header, literal inside multi-line calls, "
+              "call of multi-line chains, first line of a duplicated block), and every Python dry line and `file:S-E` range must be a window "
+              "of the Lean tracking model fed with the implementation's own normaliser. One genuine defect repaired (file-header column)."),
+        note=("which syntax node a rule anchors on, and tree-sitter / ast positions themselves, are outside the theorems and covered only by the "
+              "correspondence check on planted constructs; columns are checked for being inside the line (in bytes), not for pointing at the "
+              "construct, because the rules follow different column conventions."),
+        technique="Lean 4 proof (structural induction over texts and line lists, parametric in alphabet / filter / window size) + differential and anchor checks on planted constructs",
+        ref="DESIGN.md §3 C12"),
     "C14": dict(
         text=("Kernel-checked theorems: for every directory tree, recursive or not, from the root or a sub-directory, the "
               "walk collects exactly the files not below an always-excluded directory and not compiled artefacts "
